@@ -216,6 +216,30 @@ def generic_classes(enz_name):
     return _generic[enz_name]
 
 
+_levelled = {}
+
+
+def level_classes(enz_name):
+    """harness-made classes over the library's level hierarchy for an enzyme:
+    ({"entry": V0, "cassette": V1, "device": V2}, {"product": M-1, "entry": M0, "cassette": M1, "device": M2})"""
+    boot.boot()
+    from moclo.core import modules, vectors
+
+    if enz_name not in _levelled:
+        enz = enzyme(enz_name)
+        vs = {k: type(str("Lv%s_%s" % (k, enz_name)), (b,), {"cutter": enz})
+              for k, b in (("entry", vectors.EntryVector), ("cassette", vectors.CassetteVector), ("device", vectors.DeviceVector))}
+        ms = {k: type(str("Lm%s_%s" % (k, enz_name)), (b,), {"cutter": enz})
+              for k, b in (("product", modules.Product), ("entry", modules.Entry), ("cassette", modules.Cassette), ("device", modules.Device))}
+        _levelled[enz_name] = (vs, ms)
+    return _levelled[enz_name]
+
+
+def all_harness_classes(enz_name):
+    vs, ms = level_classes(enz_name)
+    return list(generic_classes(enz_name)) + list(vs.values()) + list(ms.values())
+
+
 # ------------------------------------------------------------------ records
 
 def _position(kind, value, is_start):
@@ -273,7 +297,9 @@ def make_record(spec, cls=None):
     kw = {}
     if "letters" in spec:
         # per-letter tracks may be lists, tuples (track names starting with "tup_") or strings (Biopython accepts all three)
-        kw["letter_annotations"] = {k: (v if isinstance(v, str) else tuple(v) if k.startswith("tup_") else list(v)) for k, v in spec["letters"].items()}
+        # ... or {"tuple": [...]} for a tuple-valued track under any name
+        kw["letter_annotations"] = {k: (v if isinstance(v, str) else tuple(v["tuple"]) if isinstance(v, dict) else tuple(v) if k.startswith("tup_") else list(v))
+                                    for k, v in spec["letters"].items()}
     return (cls or CircularRecord)(
         Seq(spec["seq"]), id=spec.get("id", "rec"), name=spec.get("name", spec.get("id", "rec")),
         description=spec.get("description", "desc"), features=feats, annotations=ann or None,
@@ -285,6 +311,17 @@ _ANNOTATIONS = {
     "keywords": [""], "source": "synthetic DNA construct", "organism": "synthetic DNA construct", "taxonomy": ["other sequences"],
     "comment": "made by hand", "gi": "12345",
 }
+
+
+def letter_track_variety(n, *key):
+    """per-letter tracks as sequencing reads carry them, or none: the same track name in any of the three container
+    types Biopython accepts (list, str, tuple), decided by `key` alone"""
+    r = rng_for("letter-track-variety", *key)
+    if r.random() < 0.6:
+        return None
+    kind = r.choice(["list", "str", "tuple"])
+    vals = [r.randint(0, 9) for _ in range(n)]
+    return {"phred_quality": vals if kind == "list" else "".join(map(str, vals)) if kind == "str" else {"tuple": vals}}
 
 
 def annotation_variety(*key):
